@@ -167,6 +167,12 @@ class Property(css_parser.util.Base):
                 self.name = nametokens
                 self.propertyValue = valuetokens
                 self.priority = prioritytokens
+                if not self._literalpriority and [
+                        t for t in prioritytokens
+                        if self._type(t) not in ('S', 'COMMENT', 'EOF')]:
+                    # e.g. "!important x" or a lone "!": the declaration is
+                    # malformed as a whole, not one without a priority
+                    self.wellformed = False
 
                 # also invalid values are set!
 
